@@ -55,11 +55,12 @@ type Case struct {
 var checker = &vk.Checker[Case]{
 	ID: "C12",
 	Rule: "Of: ascending position lists (empty - nil and non-nil -, 63/64/65/127/128, gaps up to 2^20; a class with runs of adjacent positions; a class of long lists, 61..4096 (thorough 65536) positions with a log-uniform count) x n in {absent, negative, 0, < last+1, last+1, last+2, word boundary +-1, far larger}; arbitrary bitmaps for ToArray/Of round trips and Get/Get1/SafeGet/SafeGet1 probes (inside; outside: -1, -64, MinInt32, 64*len, 64*len+63, MaxInt32), of 0..12 words and, classes big-*, of 13..4108 (thorough 65548) words with a log-uniform length, probed bit by bit in the first and last two words and at up to 512 of their ones; " +
-		"OfMany on segments cut from one global ascending list (positions >= size occur, size 0 occurs): few small segments, or segment sizes of log-uniform magnitude up to 2^24 (running sums in every octave up to 2^27), or up to 512 (thorough 4096) small segments, or no segment at all (nil / empty arguments); sub-lists reach the library nil, empty or with guarded spare capacity, element-wise mixed; Builder histories of Extend (ascending positions incl. >= size, size >= 0) and Set(pos, value in {0,1}) on pre-sized builders (0/63/64/65/1000 bits or log-uniform), model compared after EVERY step (Offset, exact bits, enough words): up to 12 small steps, or sizes / Set positions of log-uniform magnitude up to 2^20 (thorough 2^24), or 30..345 (thorough 2140) steps. Oracle: the sorted list of bit positions (Builder: a sparse word model) + word-count formula; OfMany and Builder.Words must have a word for every bit of the declared sizes and for every listed position (lower bound only; the exact count is asserted for Of alone). " +
+		"OfMany on segments cut from one global ascending list (positions >= size occur, size 0 occurs): few small segments, or segment sizes of log-uniform magnitude up to 2^24 (running sums in every octave up to 2^27), or up to 512 (thorough 4096) small segments, or - classes segments:one-position-each / positions:many - a number of one-position segments or a number of positions (in 1..3 segments) of log-uniform magnitude up to 2^17 (thorough 2^18), or no segment at all (nil / empty arguments); sub-lists reach the library nil, empty or with guarded spare capacity, element-wise mixed; Builder histories of Extend (ascending positions incl. >= size, size >= 0) and Set(pos, value in {0,1}) on pre-sized builders (0/63/64/65/1000 bits or log-uniform), model compared after EVERY step (Offset, exact bits, enough words), while a second builder (history derived from the case: one Set, then the same steps starting in the middle; not for histories beyond 2^22 bits) is created and filled in between - each of the two is read again after every step of the other one, and both after the later cases: up to 12 small steps, or sizes / Set positions of log-uniform magnitude up to 2^20 (thorough 2^24), or 30..345 (thorough 2140) steps. Oracle: the sorted list of bit positions (Builder: a sparse word model) + word-count formula; OfMany and Builder.Words must have a word for every bit of the declared sizes and for every listed position (lower bound only; the exact count is asserted for Of alone). Results of Of / OfMany (up to 4096 words) and of ToArray (up to 4096 entries) have their spare capacity overwritten and are read again after the later cases. " +
 		"Top of the int32 range: Of / OfMany with last position 2^31-1 or sizes up to 2^31-1 (results of 2^25 words), a Builder history that ends at Offset 2^31-1 (pre-sized; thorough also grown word by word), Get/Get1/SafeGet/SafeGet1 on the maximum bitmap (exactly 2^25 words, three sparse descriptions) and ToArray of one of them (thorough: all three). " +
-		"Grid: Of on all subsets of {0,1,62,63,64,65,127,128} x 12 values of n; sweeps over 2^k-1, 2^k, 2^k+1 and values inside every octave for: the last position of Of (25 <= k <= 30), the running sum of OfMany (k <= 29), the number of OfMany segments (k <= 13), Builder segment sizes and Set positions (k <= 24), the number of Builder steps (k <= 12), position-list lengths (k <= 14) and bitmap lengths in words (k <= 13), those of 128 elements and more under every GOMAXPROCS setting of the procs process. Non-trivial: >= 2 positions spanning >= 2 words (Of/bitmap); histories with >= 2 segments in which a position >= its size or an offset crosses a word boundary. Distinct by hash of the case.",
+		"Grid: Of on all subsets of {0,1,62,63,64,65,127,128} x 12 values of n; sweeps over 2^k-1, 2^k, 2^k+1 and values inside every octave for: the last position of Of (25 <= k <= 30), the running sum of OfMany (k <= 29), the number of OfMany segments (k <= 16 and 2^16+4, 2^17+1; beyond 2^13 with one position per segment) and the total number of OfMany positions (14 <= k <= 16 and 2^16+64, 2^17+1; in one and in three segments), Builder segment sizes and Set positions (k <= 24), the number of Builder steps (k <= 12), position-list lengths (k <= 14) and bitmap lengths in words (k <= 13), those of 128 elements and more under every GOMAXPROCS setting of the procs process. Non-trivial: >= 2 positions spanning >= 2 words (Of/bitmap); histories with >= 2 segments in which a position >= its size or an offset crosses a word boundary. Distinct by hash of the case.",
 	Check:    check,
 	Classify: classify,
+	KeepLen:  24, // a case registers up to three results (Of / OfMany words, ToArray lists, two builders)
 }
 
 func bitOf(w []uint64, i int) uint64 { return w[i/64] >> (uint(i) % 64) & 1 }
@@ -266,6 +267,24 @@ func watchWords(what string, r []uint64) {
 	})
 }
 
+// watchList is watchWords for a position list that ToArray returned: want is what it must contain (a private copy is
+// kept), its spare capacity is overwritten, and it is read again after the later cases.
+func watchList(what string, r []int32, want []int32) {
+	expect := append([]int32(nil), want...)
+	vk.ScribbleI32(r)
+	keepResult(func() string {
+		if len(r) != len(expect) {
+			return fmt.Sprintf("%s: had %d entries, now %d", what, len(expect), len(r))
+		}
+		for i := range expect {
+			if r[i] != expect[i] {
+				return fmt.Sprintf("%s: entry %d was %d, now %d", what, i, expect[i], r[i])
+			}
+		}
+		return ""
+	})
+}
+
 // quickToArrayWords: ToArray scans bit by bit (about 1 ns per bit); in the quick tier it is run on results of up to
 // 2^19 words (33 ms), beyond that only where the case asks for it (ToArr) or in the thorough tier.
 const quickToArrayWords = 1 << 19
@@ -316,6 +335,9 @@ func checkOf(c Case) *vk.Failure {
 			if arr[i] != c.Positions[i] {
 				return vk.Failf("toarray-of", "ToArray(Of(%s)) = %s (entry %d is %d, want %d)", shortList(c.Positions), shortList(arr), i, arr[i], c.Positions[i])
 			}
+		}
+		if len(arr) <= 1<<12 {
+			defer watchList(fmt.Sprintf("ToArray(Of(%d positions))", len(c.Positions)), arr, c.Positions)
 		}
 	}
 	if msg := posOK(); msg != "" {
@@ -463,6 +485,14 @@ func checkBitmap(c Case) (f *vk.Failure) {
 			return vk.Failf("mutates", "an inspection function modified word %d", i)
 		}
 	}
+	// the three results belong to the caller: they are read again after the later cases (spare capacity overwritten)
+	if len(arr) <= 1<<12 {
+		watchList(fmt.Sprintf("ToArray(bitmap of %d words)", len(c.Words)), arr, want)
+	}
+	if len(back) <= 1<<12 {
+		watchWords("Of(ToArray(b), 64*len(b))", back)
+		watchWords("Of(ToArray(b))", backTrim)
+	}
 	return nil
 }
 
@@ -588,55 +618,189 @@ func checkOfMany(c Case) *vk.Failure {
 	return nil
 }
 
+// builderRun is one Builder with its oracle (a sparse word model and the expected Offset) and the history it runs.
+type builderRun struct {
+	name     string // "" for the builder of the case, otherwise how the second one is named in messages
+	prealloc int32
+	steps    []Step
+	shape    uint32
+	b        *bitmap.Builder
+	model    *wordModel
+	offset   int64
+	next     int
+}
+
+var errOutOfDomain = &vk.Failure{Kind: "out-of-domain"}
+
+// verify compares Offset, the exact bits and the word count with the model.
+// (when is built on failure only: verify runs after every step)
+func (r *builderRun) verify(when func() string) *vk.Failure {
+	if int64(r.b.Offset) != r.offset {
+		return vk.Failf("builder-offset", "%s%s: Offset = %d, want %d", r.name, when(), r.b.Offset, r.offset)
+	}
+	if p, ok := r.model.diff(r.b.Words); !ok {
+		return vk.Failf("builder-bits", "%s%s: bit %d is wrong (words %s)", r.name, when(), p, short(r.b.Words))
+	}
+	if int64(64*len(r.b.Words)) < r.offset || int64(64*len(r.b.Words)) < r.model.maxbit+1 {
+		return vk.Failf("builder-words", "%s%s: %d words do not cover Offset %d / highest bit %d", r.name, when(), len(r.b.Words), r.offset, r.model.maxbit)
+	}
+	return nil
+}
+
+// step creates the builder if this is its first step, runs the next step of the history and compares.
+func (r *builderRun) step() *vk.Failure {
+	if r.b == nil {
+		if f := vk.Try(r.name+"NewBuilder", func() { r.b = bitmap.NewBuilder(r.prealloc) }); f != nil {
+			return f
+		}
+		r.model = newWordModel()
+	}
+	if r.next >= len(r.steps) {
+		return nil
+	}
+	si := r.next
+	s := r.steps[si]
+	r.next++
+	sel := shapeSel(r.shape, si)
+	switch s.Kind {
+	case "extend":
+		pos, posOK := shaped(s.Positions, sel)
+		if f := vk.TryF(func() string {
+			return fmt.Sprintf("%sstep %d: Extend(%s, %d) at Offset %d", r.name, si, argList(s.Positions, sel), s.Size, r.offset)
+		}, func() { r.b.Extend(pos, s.Size) }); f != nil {
+			return f
+		}
+		if msg := posOK(); msg != "" {
+			return vk.Failf("extend-mutates", "%sstep %d Extend(%s, %d): %s", r.name, si, shortList(s.Positions), s.Size, msg)
+		}
+		for _, p := range s.Positions {
+			r.model.set(r.offset + int64(p))
+		}
+		r.offset += int64(s.Size)
+	default:
+		if s.Value != 0 && s.Value != 1 {
+			return errOutOfDomain // a bit value is 0 or 1: anything else is outside the domain (never generated)
+		}
+		if f := vk.TryF(func() string { return fmt.Sprintf("%sstep %d: Set(%d, %d)", r.name, si, s.Pos, s.Value) }, func() { r.b.Set(s.Pos, s.Value) }); f != nil {
+			return f
+		}
+		if s.Value == 1 {
+			r.model.set(int64(s.Pos))
+		}
+		if r.offset <= int64(s.Pos) {
+			r.offset = int64(s.Pos) + 1
+		}
+	}
+	return r.verify(func() string { return fmt.Sprintf("after step %d (%s)", si, stepString(s, sel)) })
+}
+
+// keep puts the finished builder under watch: Words and Offset are read again after the later cases (which create
+// and fill other builders).
+func (r *builderRun) keep() {
+	if r.b == nil || len(r.b.Words) > 1<<14 {
+		return
+	}
+	n := len(r.steps)
+	keepResult(func() string {
+		if f := r.verify(func() string {
+			return fmt.Sprintf("builder of an earlier case (%d steps, pre-sized %d), read again", n, r.prealloc)
+		}); f != nil {
+			return f.Msg
+		}
+		return ""
+	})
+}
+
+// twinLimit: a second builder runs next to the one of the case unless either of them would grow beyond this many bits.
+const twinLimit = 1 << 22
+
+// twinHistory derives the history of the second builder (a pure function of the case): one Set of its own, then the steps
+// of the case starting in the middle - so the two builders hold different bits at (almost) every moment. ok is false when
+// the case has a step outside the domain or one of the two histories passes twinLimit.
+func twinHistory(c Case) (prealloc int32, steps []Step, ok bool) {
+	h := vk.Mix(uint64(len(c.Steps))*0x9e37 ^ uint64(uint32(c.Prealloc))<<20 ^ uint64(c.Shape)<<40)
+	// always pre-sized: a replay evaluates the case twice, so whatever a pre-sized builder leaves behind in the library is
+	// there for the second pass even when the history of the failing run did not fit into the file
+	prealloc = []int32{64, max(c.Prealloc, 64), 4096, 192}[h&3]
+	steps = append(steps, Step{Kind: "set", Pos: int32(1 + (h>>8)%127), Value: 1})
+	n := len(c.Steps)
+	for i := 0; i < n; i++ {
+		steps = append(steps, c.Steps[(i+n/2)%n])
+	}
+	if c.Prealloc > twinLimit {
+		return 0, nil, false
+	}
+	for _, hist := range [][]Step{c.Steps, steps} {
+		off := int64(0)
+		for _, s := range hist {
+			if s.Kind == "extend" {
+				if s.Size < 0 {
+					return 0, nil, false
+				}
+				if len(s.Positions) > 0 {
+					if last := s.Positions[len(s.Positions)-1]; last < 0 || off+int64(last) >= twinLimit {
+						return 0, nil, false
+					}
+				}
+				off += int64(s.Size)
+			} else {
+				if (s.Value != 0 && s.Value != 1) || s.Pos < 0 {
+					return 0, nil, false
+				}
+				off = max(off, int64(s.Pos)+1)
+			}
+			if off > twinLimit {
+				return 0, nil, false
+			}
+		}
+	}
+	return prealloc, steps, true
+}
+
+// checkBuilder runs the history of the case on one builder and, interleaved with it, a second history on a second
+// builder (created before, between or after the steps of the first): after every step the builder that made it is
+// compared with its model, and the other one is read again - a builder's Words and Offset are its own.
 func checkBuilder(c Case) *vk.Failure {
 	if c.Prealloc < 0 {
 		return nil // a pre-sized builder has n >= 0 bits (never generated otherwise)
 	}
-	var b *bitmap.Builder
-	if f := vk.Try("NewBuilder", func() { b = bitmap.NewBuilder(c.Prealloc) }); f != nil {
+	r1 := &builderRun{prealloc: c.Prealloc, steps: c.Steps, shape: c.Shape}
+	var r2 *builderRun
+	if p2, s2, ok := twinHistory(c); ok {
+		r2 = &builderRun{name: "second builder alive at the same time: ", prealloc: p2, steps: s2, shape: c.Shape>>3 | 1}
+	}
+	if f := r1.step(); f != nil { // NewBuilder and the first step of the case
+		if f == errOutOfDomain {
+			return nil
+		}
 		return f
 	}
-	model := newWordModel()
-	offset := int64(0)
-	for si, s := range c.Steps {
-		switch s.Kind {
-		case "extend":
-			pos, posOK := shaped(s.Positions, shapeSel(c.Shape, si))
-			if f := vk.TryF(func() string {
-				return fmt.Sprintf("step %d: Extend(%s, %d) at Offset %d", si, argList(s.Positions, shapeSel(c.Shape, si)), s.Size, offset)
-			}, func() { b.Extend(pos, s.Size) }); f != nil {
+	sched := vk.Mix(uint64(len(c.Steps))<<32 ^ uint64(c.Shape) ^ 0x7717)
+	for round := 0; r1.next < len(r1.steps) || (r2 != nil && r2.next < len(r2.steps)); round++ {
+		// which builder makes the next step: by a bit of the schedule (runs of steps on one builder occur), the other one
+		// when its history is used up
+		cur, other := r1, r2
+		if r2 != nil && (r1.next >= len(r1.steps) || (r2.next < len(r2.steps) && sched>>(uint(round)%61)&1 == 1)) {
+			cur, other = r2, r1
+		}
+		if f := cur.step(); f != nil {
+			if f == errOutOfDomain {
+				return nil
+			}
+			return f
+		}
+		if other != nil && other.b != nil {
+			if f := other.verify(func() string {
+				return fmt.Sprintf("read again after step %d of another builder (%s)", cur.next-1, stepString(cur.steps[cur.next-1], 0))
+			}); f != nil {
+				f.Kind = "builder-changed-by-another-builder"
 				return f
 			}
-			if msg := posOK(); msg != "" {
-				return vk.Failf("extend-mutates", "step %d Extend(%s, %d): %s", si, shortList(s.Positions), s.Size, msg)
-			}
-			for _, p := range s.Positions {
-				model.set(offset + int64(p))
-			}
-			offset += int64(s.Size)
-		default:
-			if s.Value != 0 && s.Value != 1 {
-				return nil // a bit value is 0 or 1: anything else is outside the domain (never generated)
-			}
-			if f := vk.TryF(func() string { return fmt.Sprintf("step %d: Set(%d, %d)", si, s.Pos, s.Value) }, func() { b.Set(s.Pos, s.Value) }); f != nil {
-				return f
-			}
-			if s.Value == 1 {
-				model.set(int64(s.Pos))
-			}
-			if offset <= int64(s.Pos) {
-				offset = int64(s.Pos) + 1
-			}
 		}
-		if int64(b.Offset) != offset {
-			return vk.Failf("builder-offset", "after step %d (%s): Offset = %d, want %d", si, stepString(s, shapeSel(c.Shape, si)), b.Offset, offset)
-		}
-		if p, ok := model.diff(b.Words); !ok {
-			return vk.Failf("builder-bits", "after step %d (%s): bit %d is wrong (words %s)", si, stepString(s, shapeSel(c.Shape, si)), p, short(b.Words))
-		}
-		if int64(64*len(b.Words)) < offset || int64(64*len(b.Words)) < model.maxbit+1 {
-			return vk.Failf("builder-words", "after step %d (%s): %d words do not cover Offset %d / highest bit %d", si, stepString(s, shapeSel(c.Shape, si)), len(b.Words), offset, model.maxbit)
-		}
+	}
+	r1.keep()
+	if r2 != nil {
+		r2.keep()
 	}
 	return nil
 }
@@ -740,6 +904,16 @@ func classify(c Case) (bool, []string) {
 			labels = append(labels, "no-segment")
 		}
 		labels = append(labels, "sum-of-sizes:"+magnitude(base))
+		npos := 0
+		for k := range c.Subs {
+			npos += len(c.Subs[k])
+		}
+		if len(c.Subs) >= 1<<12 {
+			labels = append(labels, "segment-count:"+magnitude(int64(len(c.Subs))))
+		}
+		if npos >= 1<<12 {
+			labels = append(labels, "position-count:"+magnitude(int64(npos)))
+		}
 		return len(c.Subs) >= 2 && (over || cross), labels
 	}
 	segs, over, cross, sets := 0, false, false, 0
@@ -991,6 +1165,14 @@ func genOfMany(t *rapid.T) Case {
 		}
 	case 3:
 		// many small segments (offsets accumulated over many segments), now and then a larger one among them
+		if gen.Chance(t, 1, 4, "beyond-2^16") {
+			// counts of log-uniform magnitude up to 2^17 (thorough 2^18): segments with one position each, or positions in
+			// one to three segments (content: a pure function of the drawn numbers, written out in the case)
+			if gen.Chance(t, 1, 2, "which") {
+				return ofManyCheap(1+int(logU(t, vk.Pick(17, 18), "nseg.huge")), gen.U64(t, "key"), "segments:one-position-each")
+			}
+			return ofManyTotal(8+int(logU(t, vk.Pick(17, 18), "npos.huge")), 1+gen.Uniform(t, 3, "nsegs"), 1+gen.Uniform(t, 3, "stride"), "positions:many")
+		}
 		c.Class = "segments:many"
 		nseg = 13 + int(logU(t, vk.Pick(9, 12), "nseg"))
 		nabs = int(logU(t, vk.Pick(10, 13), "nabs"))
@@ -1202,6 +1384,54 @@ func octave(k, extra int) []int64 {
 		vs = append(vs, between(k, i))
 	}
 	return vs
+}
+
+// ofManyCheap: OfMany on nseg segments of 1..3 bits with one position each (the first and the last: 3 bits, positions 0
+// and 2), a pure function of (nseg, key): the cheapest content with which the NUMBER of segments and the total number
+// of positions can pass 2^16 (every segment's base depends on all sizes before it, every position lands on a bit of its own).
+func ofManyCheap(nseg int, key uint64, class string) Case {
+	c := Case{Op: "ofmany", Class: class, Shape: uint32(vk.Mix(key^uint64(nseg)) >> 11), Subs: make([][]int32, nseg), Sizes: make([]int32, nseg)}
+	flat := make([]int32, nseg+2)
+	for s := 0; s < nseg; s++ {
+		h := vk.Mix(key + uint64(s)*0x9e3779b9)
+		size := int32(1 + h%3)
+		flat[s] = int32(h >> 8 % uint64(size))
+		c.Subs[s], c.Sizes[s] = flat[s:s+1:s+1], size
+	}
+	c.Subs[0], c.Sizes[0] = []int32{0, 2}, 3
+	if nseg > 1 {
+		c.Subs[nseg-1], c.Sizes[nseg-1] = []int32{0, 2}, 3
+	}
+	return c
+}
+
+// ofManyTotal: OfMany on npos (>= 8) positions in total - ascending absolute positions j*stride + j%stride - cut into nsegs
+// (1..3) segments; the segment behind a cut starts one bit before its first position (with adjacent positions the last
+// position of the segment before the cut then equals that segment's size).
+func ofManyTotal(npos, nsegs, stride int, class string) Case {
+	c := Case{Op: "ofmany", Class: class, Shape: uint32(vk.Mix(uint64(npos)*8+uint64(nsegs)) >> 13)}
+	abs := func(j int) int64 { return int64(j)*int64(stride) + int64(j%stride) }
+	start, base := 0, int64(0)
+	for k := 0; k < nsegs; k++ {
+		end := npos
+		if k+1 < nsegs {
+			end = (k+1)*npos/nsegs + k
+		}
+		sub := make([]int32, 0, end-start)
+		for j := start; j < end; j++ {
+			sub = append(sub, int32(abs(j)-base))
+		}
+		next := abs(end-1) + 6 // the last segment: a few empty bits behind the last position
+		if k+1 < nsegs {
+			next = abs(end) - 1 // the next segment starts one bit before its first position
+			if abs(end-1) > next {
+				next = abs(end - 1)
+			}
+		}
+		c.Subs, c.Sizes = append(c.Subs, sub), append(c.Sizes, int32(next-base))
+		start, base = end, next
+	}
+	return c
 }
 
 // ofManySum: OfMany whose running sum is `sum` (>= 3) in front of the segment that holds most positions: three segments
@@ -1422,6 +1652,23 @@ func TestGrid(t *testing.T) {
 				off += int64(size)
 			}
 			checker.Run(t, c)
+		}
+	}
+	// OfMany beyond 2^16: the number of segments in the octaves 2^14 .. 2^17 (one position per segment, sizes 1..3), and
+	// the total number of positions 2^k-1, 2^k, 2^k+1, 2^k+64 and one value inside, 14 <= k <= 16, in one and in three segments;
+	// 2^17+1 of either
+	// (at the end of the grid: these case files are large, and the history written with a failure has a size budget)
+	for k := 14; k <= 17; k++ {
+		counts, totals := append(octave(k, 1), int64(1)<<uint(k)+4), append(octave(k, 1), int64(1)<<uint(k)+64)
+		if k == 17 {
+			counts, totals = counts[2:3], totals[2:3] // (2^17+1 alone: the octave above it belongs to the thorough tier's random classes)
+		}
+		for i, nseg := range counts {
+			checker.Run(t, ofManyCheap(int(nseg), uint64(k*16+i), "grid-segment-count"))
+		}
+		for i, npos := range totals {
+			checker.Run(t, ofManyTotal(int(npos), 1, 1+(k+i)%3, "grid-position-count"))
+			checker.Run(t, ofManyTotal(int(npos), 3, 1+(k+i+1)%3, "grid-position-count"))
 		}
 	}
 	vk.MarkExhaustive("Of on all subsets of {0,1,62,63,64,65,127,128} x n in {absent, MinInt32, -1, 0, 1, 63, 64, 65, 128, 129, 130, 192, 1000}")
